@@ -50,6 +50,9 @@ pub struct ManiaGradualDifficulty {
     pub(crate) idx: usize,
     pub(crate) difficulty: Difficulty,
     objects_is_circle: Box<[bool]>,
+    /// The combo that each object adds, calculated the same way as for
+    /// regular difficulty calculation
+    objects_combo: Box<[u32]>,
     is_convert: bool,
     strain: Strain,
     diff_objects: Box<[ManiaDifficultyObject]>,
@@ -99,21 +102,28 @@ impl ManiaGradualDifficulty {
         let objects_is_circle: Box<[_]> =
             map.hit_objects.iter().map(HitObject::is_circle).collect();
 
-        if let Some(h) = map.hit_objects.first() {
-            let hit_object = ManiaObject::new(h, total_columns, &mut params);
+        let mut combo_params = ObjectParams::new(&map);
 
-            increment_combo_raw(
-                objects_is_circle[0],
-                hit_object.start_time,
-                hit_object.end_time,
-                &mut note_state,
-            );
+        let objects_combo: Box<[_]> = map
+            .hit_objects
+            .iter()
+            .map(|h| {
+                let prev_combo = combo_params.max_combo();
+                let _ = ManiaObject::new(h, total_columns, &mut combo_params);
+
+                combo_params.max_combo() - prev_combo
+            })
+            .collect();
+
+        if let Some(is_circle) = objects_is_circle.first() {
+            increment_combo(*is_circle, objects_combo[0], &mut note_state);
         }
 
         Ok(Self {
             idx: 0,
             difficulty,
             objects_is_circle,
+            objects_combo,
             is_convert: map.is_convert,
             strain,
             diff_objects,
@@ -135,12 +145,8 @@ impl Iterator for ManiaGradualDifficulty {
             self.strain.process(curr, &self.diff_objects);
 
             let is_circle = self.objects_is_circle[self.idx];
-            increment_combo(
-                is_circle,
-                curr,
-                &mut self.note_state,
-                self.difficulty.get_clock_rate(),
-            );
+            let combo = self.objects_combo[self.idx];
+            increment_combo(is_circle, combo, &mut self.note_state);
         } else if self.objects_is_circle.is_empty() {
             return None;
         }
@@ -177,10 +183,9 @@ impl Iterator for ManiaGradualDifficulty {
             self.idx += 1;
         }
 
-        let clock_rate = self.difficulty.get_clock_rate();
-
         for (curr, is_circle) in skip_iter.take(take) {
-            increment_combo(*is_circle, curr, &mut self.note_state, clock_rate);
+            let combo = self.objects_combo[self.idx];
+            increment_combo(*is_circle, combo, &mut self.note_state);
             self.strain.process(curr, &self.diff_objects);
             self.idx += 1;
         }
@@ -199,25 +204,10 @@ impl ExactSizeIterator for ManiaGradualDifficulty {
     }
 }
 
-fn increment_combo(
-    is_circle: bool,
-    diff_obj: &ManiaDifficultyObject,
-    state: &mut NoteState,
-    clock_rate: f64,
-) {
-    increment_combo_raw(
-        is_circle,
-        diff_obj.start_time * clock_rate,
-        diff_obj.end_time * clock_rate,
-        state,
-    );
-}
+fn increment_combo(is_circle: bool, combo: u32, state: &mut NoteState) {
+    state.curr_combo += combo;
 
-fn increment_combo_raw(is_circle: bool, start_time: f64, end_time: f64, state: &mut NoteState) {
-    if is_circle {
-        state.curr_combo += 1;
-    } else {
-        state.curr_combo += 1 + ((end_time - start_time) / 100.0) as u32;
+    if !is_circle {
         state.n_hold_notes += 1;
     }
 }
